@@ -15,4 +15,16 @@ theorem wrapAngleNegPiPi_eq (x : Rat) : Maths.wrapAngleNegPiPi x = RV.Angles.wra
 /-- `fpe_equals(value, expected)` is `|value - expected| < finfo(float).resolution` -/
 theorem fpe_equals_eq (a b : Rat) : Maths.fpe_equals a b = decide (RV.Angles.absQ (a - b) < FPE_RESOLUTION) := rfl
 
+/-- `residual(val1, val2, angular)` -/
+theorem residual_eq (a b : Rat) (ang : Bool) : Maths.residual a b ang = RV.Angles.residual PI TWOPI a b ang := rfl
+
+/-- one element of `vecWrapAngleNeg` -/
+theorem vecWrapAngleNeg_eq (x : Rat) : Maths.vecWrapAngleNeg x = RV.Angles.vecWrapNeg PI TWOPI x := rfl
+
+/-- one element of `vecWrapAngle2Pi` -/
+theorem vecWrapAngle2Pi_eq (x : Rat) : Maths.vecWrapAngle2Pi x = RV.Angles.vecWrap2Pi TWOPI x := rfl
+
+/-- one element of `vecResiduals` -/
+theorem vecResiduals_eq (a b : Rat) (ang : Bool) : Maths.vecResiduals a b ang = RV.Angles.vecResidual PI TWOPI a b ang := rfl
+
 end RV.Bridge.Maths
